@@ -145,7 +145,7 @@ class Taint:
                         res = t.get("resolved")
                         if res in ctx.fx.fns:
                             targets = [ctx.fx.fns[res]]
-                        elif t.get("resolved_closure") in ctx.fx.fns:
+                        elif t.get("resolved_closure") in ctx.fx.fns and (t.get("callee_trait") or "").split("::")[-1] in ("FnOnce", "FnMut", "Fn"):
                             targets = [ctx.fx.fns[t["resolved_closure"]]]
                     if targets:
                         for g in targets:
